@@ -437,7 +437,14 @@ pub fn statement<'t>(ctx: Context<'t>) -> ParseResult<'t, Statement> {
                 expression(ctx)?
             };
             let (ctx, body) = inner_statement(ctx)?;
-            (ctx.prev(), Loop { condition, body: Box::new(body) })
+            // Hand back the newline that ended the body - if it didn't end at an `end` that
+            // isn't ours to take again.
+            let ctx = if matches!(ctx.token(), T::End | T::Else | T::Elif) {
+                ctx
+            } else {
+                ctx.prev()
+            };
+            (ctx, Loop { condition, body: Box::new(body) })
         }
 
         // Enum declaration: `Abc :: enum A, B, C end`
